@@ -121,7 +121,7 @@ Init ==
   /\ act = [a \in Acts |-> [life |-> IF a <= NRoots THEN "new" ELSE "unborn", stack |-> <<>>,
                             ops |-> IF a <= NRoots THEN RootOps ELSE TaskOps, cur |-> NoCur]]
   /\ run = <<>>
-  /\ task = [a \in Acts |-> [scope |-> 0, vol |-> FALSE, res |-> NoSig, done |-> FALSE, ncan |-> 0, delay |-> 0]]
+  /\ task = [a \in Acts |-> [scope |-> 0, vol |-> FALSE, res |-> NoSig, done |-> FALSE, ncan |-> 0, delay |-> 0, fin |-> "none"]]
   /\ sc = [s \in Scopes |-> [owner |-> 0, kind |-> "none", open |-> FALSE, inter |-> FALSE,
                              children |-> <<>>, volatile |-> <<>>, failures |-> <<>>,
                              notif |-> NoSig, bodydone |-> FALSE]]
@@ -197,6 +197,12 @@ DoCondWait(ac, n) ==
   IF Holds(n)
   THEN DoPostpone(Push(ac, A, [k |-> "cwait", n |-> n]), pending) /\ subs' = subs
   ELSE DoSubscribe(Push(ac, A, [k |-> "cwait", n |-> n]), subs, n) /\ pending' = pending
+
+\* Task.status
+StatusOf(k) ==
+  IF task[k].res = NoSig THEN (IF act[k].life = "new" THEN "created" ELSE "running")
+  ELSE IF task[k].res = <<"ok">> THEN "success"
+  ELSE IF task[k].res[1] \in {"tcancelled", "tclosed"} THEN "cancelled" ELSE "failed"
 
 User(a) == Top(a).k \in {"user", "held"} \/ (Top(a).k = "scope" /\ Top(a).ph = "body")
 
@@ -363,20 +369,38 @@ How(x) == IF x = NoSig THEN "ok"
           ELSE IF IsException(x) THEN "failed" ELSE "signal"
 
 \* the bottom user frame is left: by an exception (UserExc) or normally (Finish in UserOp)
+\* A task may have a clean-up handler (`fin`) that reacts to being closed:
+\*   "raise": raises its own exception from the handler
+\*   "spawn": tries to spawn a sibling into its (closing) scope - must be refused
 EndUser(x) ==
-  /\ ev' = E([e |-> "end", a |-> A, how |-> How(x), t |-> now, exc |-> x])
-  /\ IF IsTask(A)
-     THEN /\ act' = [Drop(act, A) EXCEPT ![A].ops = 0]
-          /\ UNCHANGED <<run, fault>>
-     ELSE /\ act' = [act EXCEPT ![A].life = "done", ![A].stack = <<>>, ![A].ops = 0]
-          /\ run' = Pop(run)
-          /\ fault' = IF x = NoSig THEN fault
-                      ELSE IF IsException(x) THEN "stopped:user" ELSE "stopped:internal"
+  LET fin == IF IsTask(A) /\ IsGenExit(x) THEN task[A].fin ELSE "none"
+      endev == [e |-> "end", a |-> A, how |-> How(x), t |-> now, exc |-> x] IN
+  IF IsTask(A)
+  THEN /\ act' = [Drop(act, A) EXCEPT ![A].ops = 0]
+       /\ CASE fin = "raise" ->
+                 /\ cnt' = [cnt EXCEPT !.exc = @ + 1]
+                 /\ SetRun("exc", Exc(cnt.exc + 1, "Key"))
+                 /\ ev' = <<endev, [e |-> "b", a |-> A, t |-> now, op |-> "raise", cls |-> "Key", id |-> cnt.exc + 1],
+                            [e |-> "end", a |-> A, how |-> "failed", t |-> now, exc |-> Exc(cnt.exc + 1, "Key")]>>
+                 /\ fault' = fault
+            [] fin = "spawn" ->
+                 /\ ev' = <<endev, [e |-> "b", a |-> A, t |-> now, op |-> "do", s |-> task[A].scope, vol |-> FALSE,
+                                    d |-> 0, k |-> 0, fin |-> "none"],
+                            [e |-> "x", a |-> A, t |-> now, op |-> "do", exc |-> SClosed(task[A].scope)]>>
+                 /\ fault' = IF sc[task[A].scope].inter THEN "spawn_while_closing_accepted" ELSE fault
+                 /\ UNCHANGED <<run, cnt>>
+            [] OTHER -> ev' = <<endev>> /\ UNCHANGED <<run, fault, cnt>>
+  ELSE /\ ev' = <<endev>>
+       /\ act' = [act EXCEPT ![A].life = "done", ![A].stack = <<>>, ![A].ops = 0]
+       /\ run' = Pop(run)
+       /\ cnt' = cnt
+       /\ fault' = IF x = NoSig THEN fault
+                   ELSE IF IsException(x) THEN "stopped:user" ELSE "stopped:internal"
 
 UserExc ==
   /\ Running /\ Mode = "exc" /\ Top(A).k = "user" /\ act[A].cur.op = "none"
   /\ EndUser(X)
-  /\ UNCHANGED <<now, pending, future, task, sc, subs, flag, lock, cnt>>
+  /\ UNCHANGED <<now, pending, future, task, sc, subs, flag, lock>>
 
 ----------------------------------------------------------------------------
 \* SCOPES (usim/_primitives/context.py)
@@ -513,7 +537,7 @@ UserOp ==
   /\ \/ \* ---- end of the program
         /\ IF Top(A).k = "user"
            THEN /\ EndUser(NoSig)
-                /\ UNCHANGED <<pending, future, task, sc, subs, flag, lock, cnt>>
+                /\ UNCHANGED <<pending, future, task, sc, subs, flag, lock>>
            ELSE /\ LeaveBlock([act EXCEPT ![A].ops = 0])
                 /\ ev' = E(B([op |-> "leave", implicit |-> TRUE, blk |-> BlkOf(Top(A)), id |-> IdOf(Top(A))]))
                 /\ UNCHANGED <<task, flag, cnt, fault>>
@@ -567,6 +591,11 @@ UserOp ==
                             v |-> (lock[l].owner = 0 \/ lock[l].owner = A)])
               /\ act' = ac
               /\ UNCHANGED <<pending, future, run, task, sc, subs, flag, lock, cnt, fault>>
+           \/ /\ In("status")
+              /\ \E k \in (NRoots + 1)..cnt.act :
+                   ev' = E([e |-> "p", a |-> A, t |-> now, op |-> "status", k |-> k, v |-> StatusOf(k)])
+              /\ act' = ac
+              /\ UNCHANGED <<pending, future, run, task, sc, subs, flag, lock, cnt, fault>>
            \/ /\ In("open") /\ cnt.sc < MaxScopes
               /\ \E catch \in BOOLEAN :
                    /\ (~catch => In("nocatch"))
@@ -593,25 +622,26 @@ UserOp ==
                               [e |-> "r", a |-> A, op |-> "open", t |-> now]>>
               /\ UNCHANGED <<future, run, task, flag, lock, fault>>
            \/ /\ In("do")
-              /\ \E s \in 1..cnt.sc : \E vol \in BOOLEAN : \E d \in {0, 1} :
+              /\ \E s \in 1..cnt.sc : \E vol \in BOOLEAN : \E d \in {0, 1} : \E fin \in {"none", "raise", "spawn"} :
                    /\ (d = 0 \/ (In("do_after") /\ now + d <= Horizon))
+                   /\ (fin # "none" => In("do_fin"))
                    /\ (vol => In("do_volatile"))
                    /\ IF ~sc[s].inter
                       THEN \* ScopeClosed: the payload is closed and never runs
                            /\ act' = Busy(ac, "do")
                            /\ SetRun("exc", SClosed(s))
-                           /\ ev' = E(B([op |-> "do", s |-> s, vol |-> vol, d |-> d, k |-> 0]))
+                           /\ ev' = E(B([op |-> "do", s |-> s, vol |-> vol, d |-> d, k |-> 0, fin |-> fin]))
                            /\ UNCHANGED <<pending, task, sc, cnt>>
                       ELSE LET k == cnt.act + 1 IN
                            /\ k <= MaxActs
                            /\ cnt' = [cnt EXCEPT !.act = k]
                            /\ act' = [Busy(ac, "do") EXCEPT ![k].life = "new"]
                            /\ task' = [task EXCEPT ![k] = [scope |-> s, vol |-> vol, res |-> NoSig,
-                                                           done |-> FALSE, ncan |-> 0, delay |-> d]]
+                                                           done |-> FALSE, ncan |-> 0, delay |-> d, fin |-> fin]]
                            /\ pending' = Append(pending, Actv(k, NoSig))
                            /\ sc' = IF vol THEN [sc EXCEPT ![s].volatile = Append(@, k)]
                                     ELSE [sc EXCEPT ![s].children = Append(@, k)]
-                           /\ ev' = E(B([op |-> "do", s |-> s, vol |-> vol, d |-> d, k |-> k]))
+                           /\ ev' = E(B([op |-> "do", s |-> s, vol |-> vol, d |-> d, k |-> k, fin |-> fin]))
                            /\ run' = run
               /\ UNCHANGED <<future, subs, flag, lock, fault>>
            \/ /\ In("cancel")
@@ -631,7 +661,7 @@ UserOp ==
            \/ /\ In("await_t")
               /\ \E k \in (NRoots + 1)..cnt.act :
                    /\ k # A
-                   /\ DoCondWait(Push(Busy(ac, "await_t"), A, [k |-> "tawait", t |-> k]), NDone(k))
+                   /\ DoCondWait(Push([ac EXCEPT ![A].cur = [op |-> "await_t", k |-> k]], A, [k |-> "tawait", t |-> k]), NDone(k))
                    /\ ev' = E(B([op |-> "await_t", k |-> k]))
               /\ UNCHANGED <<future, task, sc, flag, lock, cnt, fault>>
            \/ /\ In("raise")
